@@ -14,6 +14,8 @@ import (
 	"k8s.io/apimachinery/pkg/apis/meta/v1/unstructured"
 	"k8s.io/apimachinery/pkg/runtime"
 	"k8s.io/apimachinery/pkg/types"
+	"k8s.io/apimachinery/pkg/util/sets"
+	"k8s.io/client-go/util/csaupgrade"
 	"sigs.k8s.io/controller-runtime/pkg/client"
 	"sigs.k8s.io/controller-runtime/pkg/client/fake"
 )
@@ -340,4 +342,70 @@ func TestDifferentialAgainstFakeClient(t *testing.T) {
 	}
 	rec(nil)
 	t.Logf("compared %d sequences, %d disagreements", total, disagreements)
+}
+
+// managedFields: a client-side write by one of package-operator's historic field managers leaves
+// an Update entry; client-go's csaupgrade turns it into a JSON patch (replace managedFields +
+// resourceVersion precondition) which the model applies, and which conflicts on a stale version.
+func TestManagedFieldsAndJSONPatch(t *testing.T) {
+	ctx := context.Background()
+	c := newTestClient()
+	c.Manager = "package-operator-manager"
+	w := widget("Widget", "ns", "a")
+	w.Object["spec"] = map[string]any{"x": int64(1)}
+	if err := apply(c, w, true); err != nil {
+		t.Fatal(err)
+	}
+	got := widget("Widget", "ns", "a")
+	if err := c.Get(ctx, client.ObjectKeyFromObject(got), got); err != nil {
+		t.Fatal(err)
+	}
+	if n := len(got.GetManagedFields()); n != 1 || got.GetManagedFields()[0].Operation != metav1.ManagedFieldsOperationApply {
+		t.Fatalf("after apply: managedFields %v", got.GetManagedFields())
+	}
+	if p, err := csaupgrade.UpgradeManagedFieldsPatch(got, sets.New("package-operator", "package-operator-manager"), "package-operator"); err != nil || len(p) != 0 {
+		t.Fatalf("nothing to migrate after a pure apply, got %s %v", p, err)
+	}
+	// a merge patch without field manager: the user agent's name becomes an Update entry
+	base := got.DeepCopy()
+	got.SetLabels(map[string]string{"l": "1"})
+	if err := c.Patch(ctx, got, client.MergeFrom(base)); err != nil {
+		t.Fatal(err)
+	}
+	if n := len(got.GetManagedFields()); n != 2 {
+		t.Fatalf("the patch response carries %d managedFields entries, want 2: %v", n, got.GetManagedFields())
+	}
+	stale := got.DeepCopy()
+	patch, err := csaupgrade.UpgradeManagedFieldsPatch(got, sets.New("package-operator", "package-operator-manager"), "package-operator")
+	if err != nil || len(patch) == 0 {
+		t.Fatalf("expected a migration patch, got %s %v", patch, err)
+	}
+	// another writer moves the object on: the migration patch computed from the stale read conflicts
+	c2 := *c
+	c2.Manager = "kubectl-edit"
+	cur := widget("Widget", "ns", "a")
+	_ = c2.Get(ctx, client.ObjectKeyFromObject(cur), cur)
+	cur.SetAnnotations(map[string]string{"x": "y"})
+	if err := c2.Update(ctx, cur); err != nil {
+		t.Fatal(err)
+	}
+	if err := c.Patch(ctx, stale, client.RawPatch(types.JSONPatchType, patch)); !apierrors.IsConflict(err) {
+		t.Fatalf("stale migration patch: want 409, got %v", err)
+	}
+	_ = c.Get(ctx, client.ObjectKeyFromObject(got), got)
+	patch, _ = csaupgrade.UpgradeManagedFieldsPatch(got, sets.New("package-operator", "package-operator-manager"), "package-operator")
+	if err := c.Patch(ctx, got, client.RawPatch(types.JSONPatchType, patch)); err != nil {
+		t.Fatalf("migration patch: %v", err)
+	}
+	for _, e := range got.GetManagedFields() {
+		if e.Operation == metav1.ManagedFieldsOperationUpdate {
+			t.Fatalf("an Update entry survived the migration: %v", got.GetManagedFields())
+		}
+	}
+	if got.GetLabels()["l"] != "1" || got.GetAnnotations()["x"] != "y" {
+		t.Fatalf("the migration patch changed content: %v", got.Object)
+	}
+	if p, _ := csaupgrade.UpgradeManagedFieldsPatch(got, sets.New("package-operator", "package-operator-manager"), "package-operator"); len(p) != 0 {
+		t.Fatalf("second migration not empty: %s", p)
+	}
 }
